@@ -2,6 +2,8 @@
    Core-only (no Mathlib / Batteries anywhere below), so it links as a native executable. -/
 import Driver.Util
 import Driver.C15
+import Driver.DataTTL
+import Driver.DataKV
 import Driver.Wal
 import Driver.Lin
 import Driver.Crash
@@ -30,6 +32,8 @@ def main (args : List String) : IO UInt32 := do
   let hin ← IO.getStdin
   let hout ← IO.getStdout
   match args with
+  | ["datacorekv"] => loop Drv.DataKV.step hin hout {}; hout.flush; return 0
+  | ["datacorettl"] => loop Drv.DataTTL.step hin hout {}; hout.flush; return 0
   | ["c15"] => loop Drv.C15.step hin hout (); hout.flush; return 0
   | ["wal"] => loop Drv.Wal.step hin hout {}; hout.flush; return 0
   | ["lin"] => loop Drv.Lin.step hin hout (); hout.flush; return 0
